@@ -226,8 +226,8 @@ func checkC03() fw.Check {
 					}
 				}
 			} else {
-				for f := 1; f <= 12; f++ {
-					for l := f; l <= 12; l++ {
+				for f := 1; f <= 24; f++ {
+					for l := f; l <= 24; l++ {
 						pairs = append(pairs, [2]int{f, l})
 					}
 				}
@@ -235,7 +235,7 @@ func checkC03() fw.Check {
 			}
 			reps := 6
 			if tier == "thorough" {
-				reps = 2
+				reps = 4
 			}
 			var cases []fw.Case
 			for _, par := range []bool{true, false} {
